@@ -7,6 +7,11 @@ import (
 
 func TestC01(t *testing.T) { runRapid(t, "C01") }
 func TestC02(t *testing.T) { runRapid(t, "C02") }
+func TestC04(t *testing.T) { runRapid(t, "C04") }
+func TestC08(t *testing.T) { runRapid(t, "C08") }
+func TestC03(t *testing.T) { runRapid(t, "C03") }
+func TestC11(t *testing.T) { runRapid(t, "C11") }
+func TestC12(t *testing.T) { runRapid(t, "C12") }
 func TestC05(t *testing.T) { runRapid(t, "C05") }
 func TestC06(t *testing.T) { runRapid(t, "C06") }
 func TestC07(t *testing.T) { runRapid(t, "C07") }
